@@ -143,3 +143,10 @@ META['C19'] = dict(
     technique='property-based testing (rapid): generated directory-tree ASTs materialised on disk, walker output compared as multisets with a walk model over the AST',
     level_text='Exploration: thousands of generated trees x all 12 walker option combinations x skip lists x root spellings.',
     level_note='Trusts harness/oracle/walk.go; three under-specified listings are accepted either way (see assumptions in the evidence).')
+
+META['C09'] = dict(
+    engine='rapid-proc',
+    design_ref='DESIGN.md section 4, C09',
+    technique='stateful model-based testing (rapid state machine) of the live binary under tmux through --listen: readline / list-cursor / selection reference model compared with GET state after every step',
+    level_text='Exploration: ~1000 (quick) to ~16000 (thorough) live sessions of 5-40 steps over generated lists, geometries, layouts and --multi limits; final stdout and exit status checked.',
+    level_note='Trusts the model in harness/oracle/editor.go and the result lists of fzf --filter (C08); tmux 3.3a as the terminal.')
